@@ -205,10 +205,14 @@ def replay(interp, contract, shape, vals):
                 return info
             C = SpecCtx(interp, callsite=False, qualname=contract.qualname)
             failed = []
-            for item in contract.post(C, args, kwargs, o):
-                g = item[1]
-                if g is not True and not (g is not False and g is not None and bool(g)):
-                    failed.append(item[0])
+            set_options(interp, shape.opts)          # the post-condition reads the option values of the shape
+            try:
+                for item in contract.post(C, args, kwargs, o):
+                    g = item[1]
+                    if g is not True and not (g is not False and g is not None and bool(g)):
+                        failed.append(item[0])
+            finally:
+                set_options(interp, {})
             info['failed_clauses'] = failed
             info['reproduced'] = bool(failed)
     except (sym.NeedConcrete, sym.Unsupported) as e:
